@@ -47,6 +47,43 @@ def campaign(c):
                     netscen.judge(c, fr, raw, e, 'l4', dict(src=src.decode()))
                     c.count('zero-fold-case')
             c.case(('zf', i, raw), dict(kind='udp-zero-fold', payload=b.hex()))
+    # crafted: sums whose FIRST fold overflows 16 bits (the end-around carry must be applied twice)
+    def raw_sum(frame, raw):
+        ip = frame if raw else frame[14:]
+        proto, seg = ip[9], bytearray(ip[20:])
+        off = {6: 16, 17: 6, 1: 2}[proto]
+        seg[off:off + 2] = b'\0\0'
+        data = bytes(seg) if proto == 1 else ip[12:20] + bytes([0, proto]) + len(seg).to_bytes(2, 'big') + bytes(seg)
+        if len(data) % 2: data += b'\0'
+        return sum(int.from_bytes(data[i:i + 2], 'big') for i in range(0, len(data), 2))
+    kinds = [('tcp-c', 'let f = ipv4::tcp::flow(10.1.2.3:4000, 10.9.8.7:80%s);', 'f.client_message(send_ack: false, %s);', 'tcp'),
+             ('tcp-s', 'let f = ipv4::tcp::flow(10.1.2.3:4000, 10.9.8.7:80%s);', 'f.server_segment(%s);', 'tcp'),
+             ('udp', 'let f = ipv4::udp::flow(10.1.2.3:4000, 10.9.8.7:53%s);', 'f.client_dgram(%s);', ('udp', True)),
+             ('icmp-q', 'let f = ipv4::icmp::flow(10.1.2.3, 10.9.8.7%s);', 'f.echo(%s);', ('icmp', 8, 0x1234, 0)),
+             ('icmp-r', 'let f = ipv4::icmp::flow(10.1.2.3, 10.9.8.7%s);', 'f.echo_reply(%s);', ('icmp', 0, 0x1234, 0))]
+    for i in range(10 if c.quick else 200):
+        r = c.rng.fork('dc%d' % i)
+        name, decl, stmt, l4 = kinds[i % len(kinds)]
+        raw = r.chance(1, 3)
+        pre = b'\xff\xff' * (2 + r.below(40)) + r.bytes(2 * r.below(8))
+        tail = r.bytes(1) if r.chance(1, 2) else b''
+        def prog(w):
+            return ('import ipv4;\n' + decl % (', raw: true' if raw else '') + '\n' + stmt % ('"|%s|"' % (pre + w + tail).hex()) + '\n').encode()
+        f0 = progdiff.pcap_records(core.run_cli(prog(b'\0\0'))['pcap'] or b'')
+        if not f0: continue
+        s0 = raw_sum(f0[0][1], raw)
+        w = ((0xffff - s0) & 0xffff).to_bytes(2, 'big')
+        src = prog(w)
+        impl, model = progdiff.run_both(c, src)
+        progdiff.compare(c, src, impl, model, 'double-carry', project=project(raw), times=False)
+        if impl['outcome'][0] == 'success':
+            fr = progdiff.pcap_records(impl['file'])[0][1]
+            s1 = raw_sum(fr, raw)
+            if (s1 & 0xffff) + (s1 >> 16) >= 0x10000: c.count('double-carry-case')
+            e = dict(src=0x0a010203, dst=0x0a090807, sport=4000, dport=53, proto=0, id=0, ttl=64, off=0, evil=False, df=False, mf=False, l4=l4, eth='ip')
+            if name in ('tcp-s', 'icmp-r'): e.update(src=0x0a090807, dst=0x0a010203)
+            netscen.judge(c, fr, raw, e, 'l4', dict(src=src.decode()))
+        c.case(('dc', i), dict(kind='double-carry', builder=name, payload_len=len(pre) + 2 + len(tail)))
     c.assumptions += ['expected ports/ids/sequence numbers come from the scenario generator']
 
 
